@@ -167,6 +167,7 @@ type ClientResult struct {
 type SrvResp struct {
 	Error       string              `json:"error,omitempty"`
 	Panic       string              `json:"panic,omitempty"`
+	PanicSite   string              `json:"panic_site,omitempty"`
 	Status      int                 `json:"status,omitempty"`
 	RespHeaders map[string][]string `json:"resp_headers,omitempty"`
 	RespBody    string              `json:"resp_body,omitempty"`
